@@ -154,9 +154,11 @@ pub fn stamp_check(value: &[u8]) -> Result<(u16, u32), String> {
 }
 
 pub fn json_doc(key_id: u16, gen: u32, target: usize) -> Vec<u8> {
-    let base = format!("{{\"n\":{gen},\"k\":{key_id},\"extra\":{{}},\"pad\":\"\"}}");
+    // members in serde_json's own output order (sorted, compact): a successful patch that changes
+    // nothing re-serialises to exactly these bytes
+    let base = format!("{{\"extra\":{{}},\"k\":{key_id},\"n\":{gen},\"pad\":\"\"}}");
     let pad = target.saturating_sub(base.len());
-    format!("{{\"n\":{gen},\"k\":{key_id},\"extra\":{{}},\"pad\":\"{}\"}}", "p".repeat(pad)).into_bytes()
+    format!("{{\"extra\":{{}},\"k\":{key_id},\"n\":{gen},\"pad\":\"{}\"}}", "p".repeat(pad)).into_bytes()
 }
 
 pub fn patch_bytes(p: &PatchKind) -> Vec<u8> {
